@@ -206,7 +206,7 @@ GEN_OWNERS = {'Symmetries.v': ('C17',), 'PhasePerm.v': ('C03',), 'OpOrder.v': ('
               'ModeCtx.v': ('C15',), 'HeapSites.v': ('C14',), 'Ham.v': ('C19',), 'LocalOpsData.v': ('C18',),
               'Ctor.v': ('C16',), 'Helpers.v': ('C05',), 'Interface.v': ('C08',), 'BinopGen.v': ('C08',), 'OddposGen.v': ('C04',), 'ReshapeGen.v': ('C07',), 'SectorsGen.v': ('C17',),
               'BlockwiseGen.v': ('C02',), 'PhasesGen.v': ('C09', 'C10'),
-              'TruncGen.v': ('C13',), 'LocalAlgGen.v': ('C18',), 'CtorAlgGen.v': ('C16',), 'FtdotGen.v': ('C03',), 'FuseGen.v': ('C05',), 'LinalgGen.v': ('C11',), 'UnfuseGen.v': ('C05',), 'FusedTdotGen.v': ('C06',)}
+              'TruncGen.v': ('C13',), 'LocalAlgGen.v': ('C18',), 'CtorAlgGen.v': ('C16',), 'FtdotGen.v': ('C03',), 'FuseGen.v': ('C05',), 'LinalgGen.v': ('C11',), 'UnfuseGen.v': ('C05',), 'FusedTdotGen.v': ('C06',), 'ConcatGen.v': ('C05',)}
 SNAP = os.path.join(COQ, 'GenSnapshot')
 _GEN_ERRS = (SyntaxError, KeyError, IndexError, AttributeError, ValueError, TypeError, OSError, AssertionError)
 
